@@ -195,7 +195,15 @@ impl Drop for Park {
                 c.disable_cancel();
             }
             while self.wait_kernel.load(Ordering::Acquire) {
-                yield_now();
+                if std::thread::panicking() {
+                    // we are dropped by an unwinding coroutine: std counts panics per thread,
+                    // switching to another coroutine now would let it run on a "panicking"
+                    // thread (its lock guards never poison) and resuming on another worker
+                    // would leave both threads' counts wrong for good. Wait as a thread
+                    std::thread::yield_now();
+                } else {
+                    yield_now();
+                }
             }
             if let Some(c) = cancel.as_ref() {
                 c.enable_cancel();
